@@ -241,8 +241,13 @@ def finish(prop, tier, seed, level, t0, stats, failures, harness_errors,
             k = h.strip().splitlines()[-1] if h.strip() else h
             uniq.setdefault(k, [0, h])[0] += 1
         for k, (n, h) in list(uniq.items())[:3]:
+            hl = h.splitlines()
+            cut = [i for i, l in enumerate(hl)
+                   if l.startswith(('Failing test case', 'Falsifying'))]
+            if cut:
+                hl = hl[:cut[0]]
             lines.append('HARNESS-ERROR property=%s (x%d) %s' % (
-                prop, n, '\n'.join(h.splitlines()[-12:])))
+                prop, n, '\n'.join(hl[-12:])))
         if code == 0:
             code = 2
     if code == 0 and (coverage['evaluations'] < 1
